@@ -127,7 +127,7 @@ func (s *ctlStore) complete(idx int, fail bool) bool {
 	s.inflight = append(s.inflight[:idx:idx], s.inflight[idx+1:]...)
 	s.mu.Unlock()
 	if fail {
-		p.ch <- errInjected
+		p.ch <- injectedErr(p.name)
 	} else {
 		p.ch <- nil
 	}
